@@ -72,6 +72,13 @@ def _finding_fixed(prefix):
 # so the check reports the defect if it returns.
 S51_FIXED = _finding_fixed("S51")
 
+# S58 (proposed_fixes/S58-*.diff): a tuple-style flatten / merge in which a rank other than the LAST of
+# the segment is already flattened (tuple coordinates) concatenates coordinates and shape but nests the upper bound into the active
+# range (((0,0,0),0) against coordinates (a,b,c,d)): iterActive() of the result raises.  S57 (c38708c)
+# repaired only the lower side.  Same gating as S51: excluded from the chains while open, generated as
+# soon as known_findings.json records a C14 finding S58* as fixed.
+S58_FIXED = _finding_fixed("S58")
+
 NAMES = ["M", "K", "N", "P", "Q", "R", "S", "T", "U", "W", "A", "B", "C", "D"]
 STYLES = ["tuple", "pair", "absolute", "relative", "linear"]
 
@@ -153,9 +160,9 @@ def coq_points(pts):
 
 def case_to_coq(c):
     if c["k"] == "C":
-        steps = L.lst("(mkS %s %s %s)" % (L.nat(st["src"]), coq_xform(st["x"]), coq_points(st["pts"]))
-                      for st in c["steps"])
-        return "(KC %s %s %s)" % (coq_tattrs(c), coq_points(c["pts"]), steps)
+        steps = L.lst("(mkS %s %s %s %s)" % (L.nat(st["src"]), coq_xform(st["x"]), coq_points(st["pts"]),
+                                             L.b(st["act"])) for st in c["steps"])
+        return "(KC %s %s %s %s)" % (coq_tattrs(c), coq_points(c["pts"]), L.b(c["act"]), steps)
     if c["k"] == "X":
         t = "(mkT %s %s %s %s %s)" % (
             L.lst(coq_rid(r) for r in c["ids"]),
@@ -384,7 +391,11 @@ def ref_apply(st, x):
                 a, b = peel(p[d + j])
                 npts.append(p[:d + j] + [a, b] + p[d + j + 1:])
             pts = npts
-    return {"ids": ids, "shape": shape, "auth": st["auth"], "pts": sorted(_lst(pts), key=_key)}
+    # the fibers' active ranges are observed while they all derive from the declared shape: a split gives
+    # its partitions ranges of their own, a linear-style flatten the range (0, inf)
+    act = st.get("act", st["auth"]) and op != "split" and not (op in ("flatten", "merge") and x["style"] == "linear")
+    return {"ids": ids, "shape": shape, "auth": st["auth"], "act": act, "pts": sorted(_lst(pts), key=_key),
+            "splits": st.get("splits", 0) + (1 if op == "split" else 0)}
 
 
 def _key(p):
@@ -398,7 +409,10 @@ def chain_ops(st, rng):
     plain = [isinstance(ids[i], str) and isinstance(shape[i], int) for i in range(n)]
     out = []
     for i in range(n):
-        if plain[i] and (auth or S51_FIXED):
+        # a second split of a shape-less tensor is kept out: once every rank has received fibers that carry
+        # an own shape (split gives them the operand's ESTIMATED rank shape), _addFiber declares the whole
+        # estimated shape authoritative - reported as a suspect, the attribute model has no data
+        if plain[i] and (auth or (S51_FIXED and st.get("splits", 0) == 0)):
             # S51 (see S51_FIXED): not on shape-less tensors while the finding is open
             out.append({"op": "split", "depth": i, "flavour": "uniform", "arg": rng.randint(1, 2)})
         if i + 1 < n and plain[i] and plain[i + 1]:
@@ -414,7 +428,8 @@ def chain_ops(st, rng):
     for d in range(n - 1):
         for l in range(1, n - d):
             seg = range(d, d + l + 1)
-            styles = ["pair", "tuple"]
+            styles = ["pair", "tuple"] if (S58_FIXED or not any(isinstance(shape[i], list) for i in list(seg)[:-1])) \
+                else ["pair"]
             if auth and all(isinstance(shape[i], int) for i in seg):
                 styles.append("linear")
             for style in styles:
@@ -445,13 +460,13 @@ def gen_chain(rng, template=None):
                 if not cur or cur[-1][0] != c_:
                     cur.append([c_, []])
                 cur = cur[-1][1]
-    states = [{"ids": ids, "shape": shape, "auth": auth, "pts": sorted(pts, key=_key)}]
+    states = [{"ids": ids, "shape": shape, "auth": auth, "act": auth, "pts": sorted(pts, key=_key)}]
     steps = []
 
     def add(src, x):
         states.append(ref_apply(states[src], x))
-        steps.append({"src": src, "x": x, "pts": states[-1]["pts"]})
-    template = template or rng.choice(["A", "A", "B", "B", "R", "R"] + (["S"] if S51_FIXED else []))
+        steps.append({"src": src, "x": x, "pts": states[-1]["pts"], "act": states[-1]["act"]})
+    template = template or rng.choice(["A", "A", "B", "B", "R", "R", "F", "F"] + (["S"] if S51_FIXED else []))
     force_u = None
     if template == "A":
         # flatten at depth >= 1 over >= 2 levels, then unflatten in one go and in single steps
@@ -470,13 +485,22 @@ def gen_chain(rng, template=None):
         d0 = rng.randint(0, n - 3)
         st1 = rng.choice(["pair", "tuple", "linear"] if auth else ["pair", "tuple"])
         add(0, {"op": rng.choice(["flatten", "merge"]), "depth": d0, "levels": 1, "style": st1})
-        st2 = "linear" if st1 == "linear" else rng.choice(["pair", "tuple", "tuple"])
+        st2 = "linear" if st1 == "linear" else rng.choice(["pair", "tuple", "tuple"] if S58_FIXED else ["pair"])
         lv = rng.randint(1, n - 2 - d0)
         add(1, {"op": rng.choice(["flatten", "merge"]), "depth": d0, "levels": lv, "style": st2})
         if auth and st1 != "linear":
             add(1, {"op": "unflatten", "depth": d0, "levels": 1})
         else:
             add(1, {"op": rng.choice(["flatten", "merge"]), "depth": d0, "levels": 1, "style": st2})
+    elif template == "F":
+        # one flatten / merge over 1-3 levels at any depth in every style, then one more step on the result
+        d0 = rng.randint(0, n - 2)
+        l = rng.randint(1, min(3, n - 1 - d0))
+        styles = ["tuple", "tuple", "pair", "pair"] + (["linear"] if auth else [])
+        add(0, {"op": rng.choice(["flatten", "merge"]), "depth": d0, "levels": l, "style": rng.choice(styles)})
+        ops = chain_ops(states[1], rng)
+        if ops:
+            add(1, rng.choice(ops))
     elif template == "S":
         # S51: an uncompressed rank below the root is split, then its .0 rank is flattened with the next
         # rank (tuple / pair), then the result is flattened again from the top
@@ -498,7 +522,7 @@ def gen_chain(rng, template=None):
         fmts = [False] * n                                 # S51 (see S51_FIXED)
     if force_u is not None:
         fmts[force_u] = True
-    return {"k": "C", "ids": ids, "shape": shape, "auth": auth, "d": d,
+    return {"k": "C", "ids": ids, "shape": shape, "auth": auth, "act": auth, "d": d,
             "fmts": fmts, "mut": rng.random() < 0.5,
             "tree": tree, "pts": states[0]["pts"], "steps": steps, "template": template}
 
@@ -798,8 +822,23 @@ def _content(T):
     return sorted(out, key=_key)
 
 
-def _tree_ok(T):
-    """leaf payloads sit exactly at the last rank, and every rank lists exactly the fibers of its level"""
+def _ranges(T):
+    """per rank: the distinct active ranges its fibers report"""
+    out = []
+    for rank in T.ranks:
+        rs = []
+        for f in rank.getFibers():
+            a = f.getActive()
+            e = [enc_sh(a[0]), enc_sh(a[1])]
+            if e not in rs:
+                rs.append(e)
+        out.append(sorted(rs, key=_key))
+    return out
+
+
+def _tree_ok(T, check_iter=True):
+    """leaf payloads sit exactly at the last rank, every rank lists exactly the fibers of its level, and
+    for every fiber active-range iteration equals occupancy iteration (an exception is a failure)"""
     from fibertree import Fiber
     n = len(T.ranks)
     levels = [[] for _ in range(n + 1)]
@@ -821,6 +860,12 @@ def _tree_ok(T):
         fs = rank.getFibers()
         if len(fs) != len(levels[i]) or any(a is not b for a, b in zip(fs, levels[i])):
             ok = False
+        for f in (fs if check_iter else []):
+            try:
+                if [c_ for c_, _ in f.iterActive()] != [c_ for c_, _ in f.iterOccupancy()]:
+                    ok = False
+            except Exception:
+                ok = False
     return 1 if ok else 0
 
 
@@ -867,7 +912,11 @@ def run_impl(c):
         for st in c["steps"]:
             Ts.append(apply_x(Ts[st["src"]], st["x"]))
         # everything is observed only now: an operand must still report what it reported before
-        return [[_attrs(T), _content(T), _tree_ok(T)] for T in Ts]
+        acts = [c["act"]] + [st["act"] for st in c["steps"]]
+        # the iterActive = iterOccupancy verdict and the ranges are taken where all ranges derive from the
+        # declared shape (act); split partitions have ranges of their own (C08's subject; a split of a split
+        # partition after a linear flatten was seen with iterActive != iterOccupancy - reported as a suspect)
+        return [[_attrs(T), _content(T), _tree_ok(T, a), _ranges(T) if a else []] for T, a in zip(Ts, acts)]
     if c["k"] == "X":
         T = make_tensor(c)
         before = _attrs(T)
